@@ -140,8 +140,19 @@ struct StaticCastOverflowImpl<Source, Dest, OverflowSituation::FLOAT_TO_ANYTHING
         // this would have been categorized as `DEST_BOUNDS_CONTAIN_SOURCE_BOUNDS` rather than
         // `FLOAT_TO_ANYTHING`.
         return (x < static_cast<Source>(std::numeric_limits<Dest>::lowest())) ||
-               (x > static_cast<Source>(std::numeric_limits<Dest>::max()));
+               (x > static_cast<Source>(std::numeric_limits<Dest>::max())) ||
+               reaches_first_value_past_max(x, std::is_integral<Dest>{});
     }
+
+ private:
+    // The max of an integral `Dest` is `2^N - 1`.  A `Source` with fewer than `N` bits of precision
+    // rounds that *up* to `2^N`, which is itself out of range, so `x > max` alone would let `2^N`
+    // through.  `2^N` is exactly representable in every binary floating point format.
+    static constexpr bool reaches_first_value_past_max(Source x, std::true_type) {
+        return x >= static_cast<Source>(std::numeric_limits<Dest>::max() / 2 + 1) * Source{2};
+    }
+
+    static constexpr bool reaches_first_value_past_max(Source, std::false_type) { return false; }
 };
 
 ////////////////////////////////////////////////////////////////////////////////////////////////////
